@@ -95,7 +95,7 @@ public:
     // Check the file length matches.
     unsigned remainingFileSize = static_cast<unsigned>(fileSize) - 4;
     remainingFileSize = (remainingFileSize + 3U) & ~3U; // Round up to multiple of 4.
-    unsigned programSize;
+    unsigned programSize = 0;
     file.read(reinterpret_cast<char*>(&programSize), 4);
     programSize <<= 2;
     //if (programSize != remainingFileSize) {
@@ -109,7 +109,7 @@ public:
     // Read debug data (if present).
     if (remainingFileSize > programSize) {
       // Strings.
-      uint32_t numStrings;
+      uint32_t numStrings = 0;
       file.read(reinterpret_cast<char*>(&numStrings), sizeof(uint32_t));
       //std::cout << std::to_string(numStrings) << " strings\n";
       std::vector<std::string> strings;
@@ -123,12 +123,12 @@ public:
         strings.push_back(s);
       }
       // Symbols
-      uint32_t numSymbols;
+      uint32_t numSymbols = 0;
       file.read(reinterpret_cast<char*>(&numSymbols), sizeof(uint32_t));
       //std::cout << std::to_string(numSymbols) << " symbols\n";
       for (size_t i=0; i<numSymbols; i++) {
-        uint32_t strIndex;
-        uint32_t byteOffset;
+        uint32_t strIndex = 0;
+        uint32_t byteOffset = 0;
         file.read(reinterpret_cast<char*>(&strIndex), sizeof(uint32_t));
         file.read(reinterpret_cast<char*>(&byteOffset), sizeof(uint32_t));
         //std::cout << "symbol " << strings[strIndex] << " " << std::to_string(byteOffset) << "\n";
